@@ -1,10 +1,44 @@
 package llvmx
 
 import (
+	"regexp"
 	"sort"
 	"strconv"
 	"strings"
 )
+
+var (
+	reTrailAtt = regexp.MustCompile(`((?:,? ![-a-zA-Z$._\\0-9]+ !\d+)+)( \{)?$`)
+	reDeclAtt  = regexp.MustCompile(`^declare((?: ![-a-zA-Z$._\\0-9]+ !\d+)+) `)
+	reOneAtt   = regexp.MustCompile(`,? (![-a-zA-Z$._\\0-9]+ !\d+)`)
+)
+
+// sortAttachments orders the metadata attachments of a definition line by kind
+// name: LLVM prints them in the order of its internal kind IDs, which depends on
+// the order in which kinds were first seen in the file, not on the module's meaning.
+func sortAttachments(line string) string {
+	sortList := func(list, sep string) string {
+		var items []string
+		for _, m := range reOneAtt.FindAllStringSubmatch(list, -1) {
+			items = append(items, m[1])
+		}
+		sort.Strings(items)
+		return sep + strings.Join(items, sep)
+	}
+	if m := reDeclAtt.FindStringSubmatchIndex(line); m != nil {
+		list := line[m[2]:m[3]]
+		line = line[:m[2]] + sortList(list, " ") + line[m[3]:]
+	}
+	if m := reTrailAtt.FindStringSubmatchIndex(line); m != nil {
+		list := line[m[2]:m[3]]
+		sep := " "
+		if strings.HasPrefix(list, ",") {
+			sep = ", "
+		}
+		line = line[:m[2]] + sortList(list, sep) + line[m[3]:]
+	}
+	return line
+}
 
 // seg is a piece of a line: either a quoted string literal (kept verbatim) or code.
 type seg struct {
@@ -123,7 +157,7 @@ func Normalize(canon string) string {
 		case strings.HasPrefix(line, "$") && strings.Contains(line, " = comdat "):
 			comdats = append(comdats, line)
 		default:
-			body = append(body, line)
+			body = append(body, sortAttachments(line))
 		}
 	}
 	sort.Strings(typeDefs)
